@@ -12,6 +12,7 @@ Exit codes (DESIGN.md section 9):
      negative control accepted, ...) -- never reported as a violation
 """
 import hashlib
+import threading
 import json
 import os
 import re
@@ -87,6 +88,7 @@ class TLCResult:
         self.coverage = {}
 
 
+_CFG_LOCK = threading.Lock()
 _STATES_RE = re.compile(r"(\d+) states generated, (\d+) distinct states found")
 _SIM_RE = re.compile(r"The number of states generated: (\d+)")
 
@@ -156,7 +158,9 @@ class Ctx:
         d = cwd or self.specdir()
         label = label or module
         if "\n" in cfg or cfg.startswith("SPECIFICATION") or cfg.startswith("INIT"):
-            cfgname = "%s__%d.cfg" % (module, len(self.tlc_runs))
+            with _CFG_LOCK:
+                self._cfgseq = getattr(self, "_cfgseq", 0) + 1
+                cfgname = "%s__%d.cfg" % (module, self._cfgseq)
             with open(os.path.join(d, cfgname), "w") as f:
                 f.write(cfg)
         else:
